@@ -13,6 +13,7 @@ from typing import Dict, List, Optional, Set, Tuple
 from ..core import AnalysisError, ClassInfo, FuncInfo, call_name, dotted, func_params, kwarg, walk_local
 from ..flow import PathWalker, dominating_atoms
 from .. import fields as F
+from . import shared
 
 MUTATORS = {'append', 'insert', 'batch_replace', 'batch_remove', 'batch_insert', 'batch_insert_into', 'insert_into_range',
             'clear_operations_touching', '__setitem__', '__delitem__', '_mutated', '__iadd__', '__imul__'}
@@ -258,6 +259,8 @@ def transformers(repo):
 
 def run(ctx):
     repo = ctx.repo
+    shared.qudit_blind_dispatch_rule(ctx, 'C06.m', ['cirq-core/cirq/transformers/', 'cirq-google/cirq_google/transformers/'], floor=4)
+    ctx.decided.append('C06.m transformers that recognise X/Z power gates by class look at their dimension before using Pauli facts')
     ctx.decided += [
         'C06.a no function of the transformer packages mutates a circuit it received as an argument (alias analysis with callee summaries)',
         'C06.b/c every @transformer consults or forwards context.tags_to_ignore and context.deep (or is tabled with a reason)',
